@@ -6,16 +6,18 @@ import (
 	"go/types"
 	"runtime/debug"
 	"strings"
+	"time"
 
 	"golang.org/x/tools/go/ssa"
 )
 
 type Config struct {
-	Entry          string // harness function name
-	MaxDecisions   int    // per path (unwinding bound on symbolic decisions)
-	MaxSteps       int    // per path instruction budget
-	MaxDepth       int    // call depth
-	QueryTimeout   int    // ms
+	Entry          string    // harness function name
+	MaxDecisions   int       // per path (unwinding bound on symbolic decisions)
+	MaxSteps       int       // per path instruction budget
+	HardDeadline   time.Time // paths still running at this instant are ended (budget)
+	MaxDepth       int       // call depth
+	QueryTimeout   int       // ms
 	IntMode        bool
 	Trace          bool
 	Stubs          map[string]string // full function name -> "noop" | harness function name | "nondet"
@@ -198,6 +200,11 @@ func (fr *frame) visitInstr(instr ssa.Instruction) bool /* returned */ {
 	w := fr.w
 	p := fr.p
 	p.steps++
+	if p.steps&0xffff == 0 {
+		if hd := w.cfg.HardDeadline; !hd.IsZero() && time.Now().After(hd) {
+			p.abort(abortBudget, "exploration deadline reached in the middle of a path")
+		}
+	}
 	if p.steps > w.cfg.MaxSteps {
 		p.abort(abortBudget, "instruction budget %d exceeded (in %s)", w.cfg.MaxSteps, fr.fn)
 	}
